@@ -70,7 +70,7 @@ def roleCounts (r : String) : Option (Cnt × Nat) :=
 
 /-- roles executed: list of role indices, one per execution of a role function -/
 def executions (mode : String) (threads iters nroles : Nat) : List Nat × Nat :=
-  let nSink := if mode = "S" then threads else if mode = "D" || mode = "G" then 0 else threads / 2
+  let nSink := if mode = "S" then threads else if mode = "D" || mode = "G" || mode = "J" then 0 else threads / 2
   let nDirect := threads - nSink
   let sinkEx := (List.range (nSink * iters)).map (· % nroles)
   let directEx := (List.range nDirect).flatMap fun i => List.replicate iters ((nSink + i) % nroles)
@@ -261,7 +261,12 @@ def runCase (line : String) : String :=
       match (roles.splitOn "|").mapM roleCounts with
       | none => "bad-program"
       | some rcs =>
-        let (exs, total) := executions mode threads iters rcs.length
+        -- mode C: `iters` fresh providers, on each `threads` direct threads run their role once
+        let (exs, total) :=
+          if mode = "C" then
+            let one := executions "D" threads 1 rcs.length
+            ((List.replicate iters one.1).flatten, one.2 * iters)
+          else executions mode threads iters rcs.length
         let sum : Cnt × Nat := exs.foldl (fun acc r =>
           let rc := rcs.getD r ((0, 0, 0), 0)
           (acc.1.plus rc.1, acc.2 + rc.2)) ((0, 0, 0), 0)
